@@ -1169,7 +1169,13 @@ COLLISION_KINDS = [
     'custom-output-twice-in-one-target', 'shared-vs-library', 'multi-output-custom-one-colliding',
     'subdir-twice:same-spelling', 'subdir-twice:dot-slash', 'subdir-twice:trailing-slash',
     'subdir-twice:inner-dot', 'subdir-twice:double-slash', 'subdir-twice:nested-dot', 'subdir-twice:symlink',
-]
+] + ['normalised-spelling:' + _k for _k in (
+    'backslash-custom-output', 'backslash-multi-output', 'backslash-exe-name', 'backslash-lib-name',
+    'backslash-dot-custom-output', 'backslash-dotdot-custom-output', 'backslash-name-suffix',
+    'backslash-name-prefix', 'slash-custom-output', 'dot-slash-custom-output', 'double-slash-custom-output',
+    'dotdot-custom-output', 'slash-exe-name', 'slash-name-suffix')]
+# kinds whose colliding pair only coincides in the layout that keeps sub directories
+MIRROR_ONLY_KINDS = [k for k in COLLISION_KINDS if k.startswith('normalised-spelling:')]
 
 
 def generate_collision(seed: T.Union[int, str], kind: T.Optional[str] = None) -> T.Tuple[T.Dict[str, str], dict]:
@@ -1190,6 +1196,8 @@ def generate_collision(seed: T.Union[int, str], kind: T.Optional[str] = None) ->
             "bystander = executable('bystander', 'm.c')"]
     body: T.List[str] = []       # goes to `sub`/meson.build (or the root when sub == '')
     root_tail: T.List[str] = []
+    root_head: T.List[str] = []  # root lines before subdir(sub)
+    paths: T.List[str] = []      # the build-dir paths at which the pair coincides (classifier input)
     certain = True
     certain_when: T.Dict[str, str] = {}     # configuration values under which the paths really coincide
     symlinks: T.Dict[str, str] = {}
@@ -1335,11 +1343,72 @@ def generate_collision(seed: T.Union[int, str], kind: T.Optional[str] = None) ->
         body.append(f"custom_target('twice', output: [{q}, {q}], command: [py, gen_tool, '--out', '@OUTPUT@'])")
         certain = False
         why = 'one custom target naming the same output twice'
+    elif kind.startswith('normalised-spelling:'):
+        # a target of the ROOT directory whose name / output / name_prefix / name_suffix is spelled so that the
+        # path the Ninja writer emits for it (backslash -> slash; ninja itself collapses ./, // and x/..) is the
+        # regular path of a target in the sub directory a/ (or, for the ./ and ../ spellings, of a sibling)
+        how = kind.split(':', 1)[1]
+        sub = 'a'
+        certain_when = {'layout': 'mirror'}
+        root: T.List[str] = []
+        out = nm + '.txt'
+        if how in ('backslash-custom-output', 'slash-custom-output', 'double-slash-custom-output'):
+            sep = {'backslash-custom-output': '\\', 'slash-custom-output': '/', 'double-slash-custom-output': '//'}[how]
+            body.append(ct('plain ct', out, ', build_by_default: true'))
+            root.append(ct('odd ct', 'a' + sep + out))
+            paths.append('a/' + out)
+        elif how == 'backslash-multi-output':
+            body.append(ct('plain ct', out))
+            root.append(f"custom_target('odd multi', output: ['other.h', {mstr('a' + chr(92) + out)}, 'third.c'], "
+                        "command: [py, gen_tool, '--out', '@OUTPUT@'], build_by_default: true)")
+            paths.append('a/' + out)
+        elif how in ('backslash-exe-name', 'slash-exe-name'):
+            sep = chr(92) if how.startswith('backslash') else '/'
+            body.append(f"executable({q}, 'm.c')")
+            root.append(f"executable({mstr('a' + sep + nm)}, 'm.c', build_by_default: false)")
+            paths.append('a/' + nm)
+        elif how == 'backslash-lib-name':
+            # liba\<nm>.a is written as liba/<nm>.a: the custom target output <nm>.a in the directory liba/
+            sub = 'liba'
+            files['liba/in.txt'] = 'x\n'
+            body.append(ct('plain ct', nm + '.a', ', build_by_default: true'))
+            root.append(f"static_library({mstr('a' + chr(92) + nm)}, 'l.c')")
+            paths.append('liba/' + nm + '.a')
+        elif how in ('backslash-dot-custom-output', 'dot-slash-custom-output'):
+            sep = chr(92) if how.startswith('backslash') else '/'
+            need_root = True
+            body += [ct('plain ct', out, ', build_by_default: true'), ct('odd ct', '.' + sep + out)]
+            paths.append(out)
+            certain_when = {}
+        elif how in ('backslash-dotdot-custom-output', 'dotdot-custom-output'):
+            sep = chr(92) if how.startswith('backslash') else '/'
+            body.append(ct('odd ct', '..' + sep + out))
+            root.append(ct('plain ct', out, ', build_by_default: true'))
+            paths.append(out)
+        elif how in ('backslash-name-suffix', 'slash-name-suffix'):
+            # <nm>.a\<x> is written as <nm>.a/<x>: the custom target output <x> in the directory <nm>.a/
+            sep = chr(92) if how.startswith('backslash') else '/'
+            sub = 'e2.x'
+            body.append(ct('plain ct', 'y' + nm, ', build_by_default: true'))
+            root.append(f"executable('e2', 'm.c', name_suffix: {mstr('x' + sep + 'y' + nm)})")
+            paths.append('e2.x/y' + nm)
+        elif how == 'backslash-name-prefix':
+            sub = 'pre'
+            body.append(ct('plain ct', 'fix' + nm, ', build_by_default: true'))
+            root.append(f"executable({q}, 'm.c', name_prefix: {mstr('pre' + chr(92) + 'fix')})")
+            paths.append('pre/fix' + nm)
+        else:
+            raise AssertionError(kind)
+        if rng.random() < 0.5:
+            root_head += root
+        else:
+            root_tail += root
+        why = f'a root-directory target spelled ({how}) so that the written path equals {paths[0]!r} of another target'
     else:
         raise AssertionError(kind)
     if need_root:
         sub = ''
-    lines = list(head)
+    lines = list(head) + root_head
     if sub:
         lines.append(f"subdir({mstr(sub)})")
         files[f'{sub}/meson.build'] = '\n'.join(body) + '\n'
@@ -1348,7 +1417,8 @@ def generate_collision(seed: T.Union[int, str], kind: T.Optional[str] = None) ->
     lines += root_tail
     files['meson.build'] = '\n'.join(lines) + '\n'
     desc = {'targets': [], 'tests': [], 'features': ['collision:' + kind], 'flat_collision': False,
-            'collision': {'kind': kind, 'certain': certain, 'certain_when': certain_when, 'why': why, 'dir': sub},
+            'collision': {'kind': kind, 'certain': certain, 'certain_when': certain_when, 'why': why, 'dir': sub,
+                          'paths': paths},
             'has_subproject': False, 'symlinks': symlinks,
             'seed': str(seed)}
     return files, desc
